@@ -93,6 +93,8 @@ class _StdApi:
         self.EXTENDED_ARG = opc.EXTENDED_ARG
         self.HAVE_ARGUMENT = opc.HAVE_ARGUMENT
 
+        api_opc = opc
+
         class Bytecode(_Bytecode):
             """The bytecode operations in a piece of code
 
@@ -104,7 +106,8 @@ class _StdApi:
 
             def __init__(self, x, first_line=None, current_offset=None, opc=None):
                 if opc is None:
-                    opc = _std_api.opc
+                    # the opcode table of *this* API object, not of the default one
+                    opc = api_opc
                 _Bytecode.__init__(
                     self,
                     x,
